@@ -127,15 +127,25 @@ Definition fill2 (v : Z) : list N := [(Z.to_N ((v / 10) mod 10) + 48)%N; (Z.to_N
 Definition fill_year (y : Z) : list N :=
   let ds := z_digits 20 (Z.abs y) [] in
   (if y <? 0 then [ch_minus] else []) ++ repeat ch_0 (4 - length ds) ++ ds.
+(** fillYearString as it is (finding F39): for a negative year the zero padding is computed from the length of the text
+    INCLUDING the sign, `if (actualLen + negativeYear < 4) pad 4 - actualLen + negativeYear`, so only one-digit negative
+    years are padded (and the caller's buffer is one unit short for them) *)
+Definition fill_year_old (y : Z) : list N :=
+  let ds := z_digits 20 (Z.abs y) [] in
+  if y <? 0 then
+    let actual := S (length ds) in
+    [ch_minus] ++ (if (actual + 1 <? 4)%nat then repeat ch_0 (4 - actual + 1) else []) ++ ds
+  else repeat ch_0 (4 - length ds) ++ ds.
 Fixpoint strip_tz0 (rl : list N) : list N := match rl with c :: r => if (c =? ch_0)%N then strip_tz0 r else rl | [] => [] end.
 (** getDateTimeCanonicalRepresentation *)
-Definition dt_canon (fix11 : bool) (s : list N) : option (list N) :=
+Definition dt_canon_with (fy : Z -> list N) (fix11 : bool) (s : list N) : option (list N) :=
   match dt_parse_norm fix11 s with
   | None => None
   | Some p =>
       let n := p_n p in
       let ms := rev (strip_tz0 (rev (p_frac p))) in
-      Some (fill_year (n_y n) ++ [ch_minus] ++ fill2 (n_mo n) ++ [ch_minus] ++ fill2 (n_d n) ++ [0x54%N] ++
+      Some (fy (n_y n) ++ [ch_minus] ++ fill2 (n_mo n) ++ [ch_minus] ++ fill2 (n_d n) ++ [0x54%N] ++
             (if n_h n =? 24 then [ch_0; ch_0] else fill2 (n_h n)) ++ [0x3A%N] ++ fill2 (n_mi n) ++ [0x3A%N] ++ fill2 (n_s n) ++
             (match ms with [] => [] | _ => ch_dot :: ms end) ++ (if p_zoned p then [0x5A%N] else []))
   end.
+Definition dt_canon (fix11 : bool) (s : list N) : option (list N) := dt_canon_with fill_year fix11 s.
